@@ -121,6 +121,17 @@ func c05R2(c *core.Ctx) {
 	}
 	cbName := fnName(cb)
 	ev, val := cb.Params[off], cb.Params[off+1]
+	// who-may-call: the per-peer counters move once per replicated event, i.e. only in this
+	// callback. A second site (e.g. the replay in onPeerOnline, which findPeer triggers from
+	// inside this very callback) counts an event twice and the last unsubscribe never reaches
+	// the trie.
+	for _, g := range c.P.ScopeFuncs() {
+		for _, call := range eng.Calls(g, false, idPeerOnSub, idPeerOnUnsub) {
+			c.Count("callsites_analysed", 1)
+			id := shortT(eng.FuncID(eng.CalleeObj(call.Common())))
+			c.Check(g == cb, rule, fnName(g)+":moves the peer counter ("+id+")", call.Pos(), "the per-peer subscription counter moves only in the merge callback, once per replicated event", "the per-peer subscription counter is also moved from "+fnName(g)+": an event that passes here and through the merge callback is counted twice (or a removal is consumed), so routing no longer follows the replicated state")
+		}
+	}
 	// own events skipped
 	notSelf := eng.EqPred("ev.Peer != ourself", false, func(x, y ssa.Value) bool {
 		b, isPeer := eng.LoadOfField(x, "Peer")
@@ -258,6 +269,31 @@ func c05R4(c *core.Ctx) {
 		}
 	}
 	c.Check(okIter, rule, name+":drops the peer's subscriptions", f.Pos(), "every subscription of the lost peer is unsubscribed locally and removed from the replicated state", "the subscriptions of a lost peer are not all unsubscribed and deleted from the state")
+	// (R4c) the stand-in works: onPeerOffline unsubscribes a deadPeer (type SubscriberOffline) that
+	// shares only the ID of the live *Peer (SubscriberRemote) sitting in the trie. The membership
+	// test in pubsub.Service.Unsubscribe must therefore not discriminate on Subscriber.Type():
+	// its Lookup takes no filter, or one that never asks for the type.
+	if u := fn(c, rule, "internal/service/pubsub", "Service", "Unsubscribe"); u != nil {
+		for _, lk := range eng.Calls(u, false, idTrieLookup) {
+			a := eng.CallArgs(lk.Common())
+			okF, why := true, "no filter"
+			if !eng.IsNilConst(eng.StripConv(a[2])) {
+				flt, _ := eng.FuncValue(a[2])
+				if flt == nil || flt.Blocks == nil {
+					okF, why = false, "the filter is not a literal, function or method value"
+				} else {
+					why = "filter " + fnName(flt) + " does not look at the subscriber type"
+					for _, g := range eng.WithAnon(flt) {
+						if len(eng.Calls(g, false, idSubscriberTyp)) > 0 {
+							okF, why = false, "filter "+fnName(flt)+" tests Subscriber.Type()"
+						}
+					}
+				}
+			}
+			c.Count("callsites_analysed", 1)
+			c.Check(okF, rule, fnName(u)+":membership by subscriber id only", lk.Pos(), "the subscribers consulted before trie.Unsubscribe are not restricted by type ("+why+"), so the deadPeer stand-in finds the live peer's entry", "pubsub.Unsubscribe restricts the subscribers it consults by type ("+why+"): the deadPeer that onPeerOffline unsubscribes (SubscriberOffline) no longer matches the live Peer (SubscriberRemote) with the same ID, the lost broker stays in the trie and keeps being forwarded to")
+		}
+	}
 	// (R4b) the key deleted is the lost peer's: state.Del(ev) derives the replicated key from
 	// ev.Peer/ev.Conn/ev.Ssid, so between SubscriptionsOf handing out ev and Del(ev) the event
 	// must not be given to anything that may write its fields (the unsubscribe handler chain
